@@ -3,6 +3,7 @@ import DadiVerif.Lemmas.PopOpsFold
 import DadiVerif.Lemmas.PopOpsProj
 import DadiVerif.Lemmas.PopOpsFoldPath
 import DadiVerif.Lemmas.PopOpsScrFold
+import DadiVerif.Lemmas.PopOpsSplit
 /-!
 # C10 — population bookkeeping on spectra equals explicit index arithmetic, keeps labels
 
@@ -514,6 +515,11 @@ theorem C10_commute_project_combine_two (a b : Nat) (ms : List Nat) (S : FS) (ha
     Obs (combineTwoCore a b (projectCore ms S)) (projectCore (merge2 a b ms) (combineTwoCore a b S)) :=
   combineTwoCore_projectCore a b ms S hab hb hadm hma hmb
 
+example : let S := ofArrays [2, 3, 4] (Array.replicate 24 1) ((Array.replicate 24 false).set! 5 true) false (some ["a", "b", "c"])
+    (0 : Nat) < 2 ∧ 2 < S.ndim ∧ ([1, 1, 3] : List Nat).getD 0 0 + 1 = S.shape.getD 0 0
+    ∧ ([1, 1, 3] : List Nat).getD 2 0 + 1 = S.shape.getD 2 0 ∧ merge2 0 2 [1, 1, 3] = [4, 1] ∧ S.msk [0, 1, 1] = true := by
+  decide +kernel
+
 theorem C10_commute_project_combine_two_public (p q : Nat) (ms : List Nat) (S : FS) (hf : S.folded = false)
     (hp : 1 ≤ p ∧ p ≤ S.ndim) (hq : 1 ≤ q ∧ q ≤ S.ndim) (hpq : p ≠ q) (hadm : AdmSizes ms S.shape)
     (hmp : ms.getD (p - 1) 0 + 1 = S.shape.getD (p - 1) 0) (hmq : ms.getD (q - 1) 0 + 1 = S.shape.getD (q - 1) 0) :
@@ -536,6 +542,29 @@ example : let S := ofArrays [2, 3, 2, 3] (Array.replicate 36 1) (Array.replicate
     ∧ (∀ r ∈ ([3, 2] : List Nat), ([1, 1, 1, 2] : List Nat).getD r 0 + 1 = S.shape.getD r 0)
     ∧ mergeAll 0 [3, 2] [1, 1, 1, 2] = [4, 1] ∧ merge2 0 2 [1, 1, 1] = [2, 1] := by decide
 
+/-- **(3b/c) projecting the MERGED population is not a commutation but a mixture.**  The weight with which a source entry with
+    (i_a, i_b) derived alleles reaches count `s` when the merged population (n_a+n_b chromosomes, the model's `projW`) is projected
+    to `M` equals the sum over the splits M = ma + (M−ma) — the split is hypergeometric, `hyp na (na+nb) M ma` =
+    C(n_a,ma)·C(n_b,M−ma)/C(n_a+n_b,M) — of the weight of reaching (sa, s−sa) when the two populations are projected separately to
+    (ma, M−ma) and merged afterwards.  (Two Vandermonde convolutions; lifted to n-D spectra only numerically, L3 `merged_split`.) -/
+theorem C10_project_merged_split (na nb M ia ib s : ℕ) (hia : ia ≤ na) (hib : ib ≤ nb) (hM : M ≤ na + nb) (hs : s ≤ M) :
+    projW (na + nb) M (ia + ib) s
+      = ∑ ma ∈ Finset.range (M + 1), hyp na (na + nb) M ma *
+          ∑ sa ∈ Finset.range (s + 1), hyp ma na ia sa * hyp (M - ma) nb ib (s - sa) := by
+  rw [projW_eq_hyp (na + nb) M (ia + ib) s hM (by omega)]
+  exact hyp_split na nb M ia ib s hia hib hM hs
+
+example : (1 : ℕ) ≤ 2 ∧ (2 : ℕ) ≤ 3 ∧ (3 : ℕ) ≤ 2 + 3 ∧ (1 : ℕ) ≤ 3 := by decide
+
+/-- …and a single split does NOT reproduce it (so "project both, then combine" ≠ "combine, then project the merged axis"):
+    n_a = n_b = 1, entry (1,0), M = 1: the pooled weight of count 1 is 1/2, the weight through the split (1,0) is 1. -/
+theorem C10_project_merged_not_commuting :
+    projW (1 + 1) 1 (1 + 0) 1 = 1 / 2 ∧
+    (∑ sa ∈ Finset.range (1 + 1), hyp 1 1 1 sa * hyp (1 - 1) 1 0 (1 - sa)) = 1 := by
+  refine ⟨?_, hyp_split_counterexample.2⟩
+  rw [projW_eq_hyp (1 + 1) 1 (1 + 0) 1 (by decide) (by decide)]
+  exact hyp_split_counterexample.1
+
 /-! ## masks (round 4) -/
 
 /-- **the mask of iterated `combine_two_pops`, both directions**: after at least one merge a result cell is masked IF AND ONLY IF
@@ -554,6 +583,11 @@ theorem C10_marginalize_folded_path (over : List Nat) (U : FS) (hf : U.folded = 
       Obs R (foldCore M) ∧ R.labels = (foldCore M).labels ∧ R.folded = true ∧
       ∀ j ∈ boxIdx R.shape, R.msk j = (foldedOut R.shape j || isCorner R.shape j) :=
   marginalize_fold_obs over U hf hc hn hv hl
+
+example : let U := ofArrays [2, 3, 2] #[1, 2, 3, 4, 5, 6, 7, 8, 9, 10, 11, 12] (Array.replicate 12 false) false (some ["a", "b", "c"])
+    U.folded = false ∧ Clean U ∧ ([2] : List Nat).Nodup ∧ (∀ k ∈ ([2] : List Nat), k < U.ndim) ∧ ([2] : List Nat).length < U.ndim
+    ∧ (marginalize [2] true (foldCore U)).map (fun R => (R.shape, R.msk [0, 1], R.msk [1, 1], R.msk [1, 2], R.folded)) = some ([2, 3], false, true, true, true) := by
+  refine ⟨rfl, ⟨by decide, by decide +kernel⟩, by decide, by decide, by decide, by decide +kernel⟩
 
 /-- the mask of `unfold(fold U)` for a spectrum without masked entries is exactly the two corners -/
 theorem C10_unfold_fold_mask (U : FS) (hc : Clean U) (i : Idx) (hi : i ∈ U.box) :
